@@ -1,5 +1,5 @@
 BASELINE_OFF = ("cd /repo && GOFLAGS=-mod=mod GOPROXY=off go test -vet=off -count=1 -timeout 25m ./...")
-HOOK_COMMITS = ["3eb0f143", "ec29f447", "f0d610d1", "122052f1", "836267ab"]
+HOOK_COMMITS = ["3eb0f143", "ec29f447", "f0d610d1", "122052f1", "836267ab", "6c88416e"]
 NOTES = ("One engine. Every check is `python3 tools/check.py <id> --tier quick|thorough`; exit 0/1/2 as in DESIGN.md 1.1. "
          "Scratch files live in /verif/.work (ignored by git).")
 
@@ -63,7 +63,9 @@ CHECKS = {
   "technique": "TLA+ spec + TLC exhaustive model checking and simulation + behaviour replay on real dkg.Process networks + TLC trace validation",
  },
  "C07": {
-  "text": "Handler level with a fabricated resharing (same secret, fresh polynomial; shapes same/add/remove/replace/threshold-up): remaining members get TransitionNewGroup, joiners start in "
+  "text": "Design: BeaconReshare.tla (which share epoch signs and counts around the transition round: asynchronous vault switch, one slot per signer in a round cache, restart loading the new group) "
+          "checked by TLC: OnlyNewShares / VaultFollowsChain exhaustively, liveness for a threshold-raising reshare, and the two named deviations as expected counterexamples. "
+          "Handler level with a fabricated resharing (same secret, fresh polynomial; shapes same/add/remove/replace/threshold-up): remaining members get TransitionNewGroup, joiners start in "
           "catch-up mode, leavers are stopped after the transition, as production does; " + _NET + ". Monitors: distributed key unchanged, C02 monitors across the transition round, "
           "partials made with old-epoch shares are not accepted after the switch, the new group keeps producing (NoProgress).",
   "design_ref": "DESIGN.md 4 C07", "note": _TRUST + " The DKG itself is not run here (fabricated resharing).", "technique": _TECH,
